@@ -468,6 +468,13 @@ func addFamilies(c *common.Corpus, dict []string, seed uint64, novel []string) i
 		if i := strings.IndexAny(w, "sS"); i >= 0 {
 			variants = append(variants, w[:i]+"\u017f"+w[i+1:])
 		}
+		// ... and the Turkic pair: U+0130 lower-cases to i, U+0131 upper-cases to I.
+		// With KELVIN SIGN and LONG S these are all the non-ASCII letters whose case
+		// mapping lands in ASCII: upper-casing, lower-casing and ASCII-only folding
+		// disagree exactly on them.
+		if i := strings.IndexAny(w, "iI"); i >= 0 {
+			variants = append(variants, strings.ToUpper(w[:i])+"\u0130"+strings.ToUpper(w[i+1:]), w[:i]+"\u0131"+w[i+1:])
+		}
 		// case-bit confusion: bytes next to the letter ranges differ from another
 		// printable byte only in bit 0x20 ('_' / DEL, '@' / '`', '[' / '{' ...); folding
 		// done with bit arithmetic instead of a range check conflates them
